@@ -67,7 +67,8 @@ P["C06"] = dict(
     claimed=True,
     technique="static analysis: exact checks of the ellipsoid table (f64 grammar, uniqueness, golden a and 1/f), "
               "series reversion identities, meridian-arc coefficients = binom(1/2,k)^2",
-    decides=["R-POLAR-HEIGHT: on the polar axis the height is |Z| - b",
+    decides=["R-COINCIDENCE-BOTH: geodesic_inv's coincidence short-cut looks at both coordinate differences",
+             "R-POLAR-HEIGHT: on the polar axis the height is |Z| - b",
              "R-RF-ZERO-CONVENTION: both ellipsoid constructors divide by a table rf only where rf != 0 is known",
              "R-TABLE-LOOKUP-EXACT: Ellipsoid::named and TriaxialEllipsoid::named look names up by equality",
              "R-CURVATURE-MEANS: combined radii of curvature satisfy their defining identities in the two principal radii",
@@ -91,7 +92,8 @@ P["C06"] = dict(
 P["C11"] = dict(
     claimed=True,
     technique="static analysis: exact checks of the unit and adaptor tables from HIR constants",
-    decides=["R-NOOP-EXACT: adapt's noop value compares the multipliers exactly (no abs, tolerance or ordered comparison, also inside predicate closures)",
+    decides=["R-COMBINE-ROLES: combine_descriptors searches from.post for elements of to.post (give = from^-1 o to)",
+             "R-NOOP-EXACT: adapt's noop value compares the multipliers exactly (no abs, tolerance or ordered comparison, also inside predicate closures)",
              "R-AXISSWAP-SHORTCUT: axisswap by-passes its loop only on the absence of `order`, never on its length or content",
              "R-UNITCONVERT-WIRING (no partial by-pass): no return by-passes the per-tuple loop on the strength of one of the two factors alone",
              "T-DESIGNATORS: e n u f w s d p map to +1 +2 +3 +4 -1 -2 -3 -4",
@@ -220,7 +222,9 @@ P["C04"] = dict(
     claimed=True,
     technique="static analysis: call-graph cycle analysis with explicit fn-pointer edges, dominance of the depth "
               "guard, provenance of re-entering calls, ranking functions for every loop of the resolution code",
-    decides=["R-CHASE-VISITED: chase's search predicate questions the whole growing collection of followed entries",
+    decides=["R-FORWARD-SELF: the arguments of a macro invocation pass a filter on `$` self-references before they are merged into the caller's values",
+             "R-CHASE-NEEDLE: where chase takes the next needle off a `$name(default)` list, the list holds exactly the name on every path",
+             "R-CHASE-VISITED: chase's search predicate questions the whole growing collection of followed entries",
              "R-REC-GUARD: every call cycle of the instantiation code passes through Op::op; nesting_too_deep() "
              "dominates every re-entering call; re-entering callers pass RawParameters::next(..) frames; next() "
              "increases the level by >= 1 on every path; the limit is a constant => nesting depth is bounded for "
@@ -274,7 +278,8 @@ P["C09"] = dict(
 P["C12"] = dict(
     claimed=True,
     technique="static analysis: key-availability and dispatch-exhaustiveness between stack::new and stack_fwd/stack_inv",
-    decides=["R-USER-I64-ARITH: roll / unroll argument arithmetic cannot overflow (an out-of-range roll ends as `roll too deep`: NaN and zero successes)",
+    decides=["R-EXACTLY-ONE: the sub-command count of stack::new is a sum of +1 steps from 0",
+             "R-USER-I64-ARITH: roll / unroll argument arithmetic cannot overflow (an out-of-range roll ends as `roll too deep`: NaN and zero successes)",
              "R-FLIP-SEQUENTIAL: each exchange of a flip reads the working tuple as the earlier exchanges left it",
              "R-STOMP-ALL: CoordinateSet::stomp overwrites whole tuples (set_coord with Coor4D::nan() for every index)",
              "R-INDEX-VALIDATION (roll/unroll): stack::new bounds |n| by m (a comparison with abs) and tests m and n for integrality",
